@@ -278,6 +278,14 @@ def r2(fx):
     yield ob('Buffer.toints groups 8 bits MSB first, zero fill', vals == [0xA5, 0xC0] and vals2 == [0x0F] * 3, ti, got=(vals, vals2), want=([0xA5, 0xC0], [0x0F] * 3))
 
 
+@rule('C01', 'R11', 2, 'what is detected as alphanumeric is packable as alphanumeric: the detection pattern accepts exactly the 45 ISO characters (C07.R2)')
+def r11(fx):
+    from . import p07
+    for o in p07.r2(fx):
+        if 'character class' in o.key or 'consulted on the whole string' in o.key or 'whole string' in o.key:
+            yield o
+
+
 @rule('C01', 'R3', 300, 'bits written = bits budgeted (write_segment + SA header vs bit_length_with_overhead), all versions/modes/ECI/SA')
 def r3(fx):
     yield from p04.sized_equals_written(fx)
@@ -470,11 +478,22 @@ def r6(fx):
 
 
 class StrModel:
-    """A text whose encodability is a parameter (no characters involved)."""
-    _model = ('encode',)
+    """A text whose encodability is a parameter (no characters involved).  What a text can be asked beside that (isascii, isdigit,
+    ...) is answered as for a text that is neither ASCII nor digits - the case in which the codec order matters."""
+    _model = ('encode', 'isascii', 'isdigit', 'isdecimal', 'isnumeric', 'isalnum', 'isalpha', 'isupper', 'islower', 'isspace')
 
-    def __init__(self, fails):
-        self.fails, self.tried = set(fails), []
+    def isascii(self):
+        return self.ascii_text
+
+    def __len__(self):
+        return 7
+
+    def isdigit(self):
+        return False
+    isdecimal = isnumeric = isalnum = isalpha = isupper = islower = isspace = isdigit
+
+    def __init__(self, fails, ascii_text=False):
+        self.fails, self.tried, self.ascii_text = set(fails), [], ascii_text
 
     def encode(self, encoding):
         self.tried.append(encoding)
@@ -494,7 +513,7 @@ class EncBytes:
         return isinstance(o, EncBytes) and o.encoding == self.encoding
 
 
-@rule('C01', 'R7', 9, 'data_to_bytes: bytes unchanged; requested codec only; else ISO-8859-1, Shift JIS, UTF-8; reports the codec used')
+@rule('C01', 'R7', 10, 'data_to_bytes: bytes unchanged; requested codec only; else ISO-8859-1, Shift JIS, UTF-8; reports the codec used')
 def r7(fx):
     fn = fx.fn('encoder', 'data_to_bytes')
     it = Interp()
@@ -511,6 +530,11 @@ def r7(fx):
         data, ln, enc = f(s, req)
         yield ob(f'requested {req}: exactly that codec', (enc, s.tried) == (req, [req]) and data == EncBytes(req), fn,
                  got=(enc, s.tried), want=(req, [req]))
+    # an ASCII-only text is no exception: utf-16 / utf-32 / EBCDIC codecs do not contain ASCII
+    s = StrModel((), ascii_text=True)
+    data, ln, enc = f(s, 'utf-16-be')
+    yield ob('requested utf-16-be for an ASCII-only text: exactly that codec', (enc, s.tried) == ('utf-16-be', ['utf-16-be']) and data == EncBytes('utf-16-be'), fn,
+             got=(enc, s.tried, getattr(data, 'encoding', data)), want=('utf-16-be', ['utf-16-be']))
     s = StrModel(('ascii',))
     try:
         f(s, 'ascii')
